@@ -206,6 +206,10 @@ def term_str(v):
         return '&%s%s' % (v[1], ''.join('.%s%d' % p for p in v[2]))
     if k == 'op':
         return 'opaque<%s>' % v[1]
+    if k == 'dyn':
+        return 'dyn(%s)' % term_str(v[1])
+    if k == 'fn':
+        return 'fn(%s)' % (v[1] if isinstance(v[1], str) else v[1].get('path_inst') or v[1].get('path'))
     return repr(v)
 
 
@@ -220,13 +224,30 @@ class Program:
             if f['path'] in self.fns:
                 raise Undecided('duplicate function path ' + f['path'])
             self.fns[f['path']] = f
+        self.statics = {x['path']: x for x in facts.get('statics', [])}
         self.ext_fns = {}
+        self.ext_generic = {}
         for f in facts.get('ext_fns', []):
-            self.ext_fns.setdefault(f['path_inst'], f)
+            if f.get('generic'):
+                self.ext_generic.setdefault(f['path'], f)
+            else:
+                self.ext_fns.setdefault(f['path_inst'], f)
         self.adts = {}
         for a in facts['adts'] + facts.get('ext_adts', []):
             self.adts[a['path']] = a
         self._fieldless = {}
+
+    def find_impl_method(self, trait, self_ty, method):
+        """path of `<self_ty as trait>::method` among the crate's impls (dyn dispatch resolution)"""
+        if trait is None or self_ty is None:
+            return None
+        for im in self.facts.get('impls', []):
+            if im.get('trait') == trait.split('::')[-1] or im.get('trait') == trait:
+                if im['self_ty'] == self_ty:
+                    for it in im['items']:
+                        if it['name'] == method and it['is_fn']:
+                            return it['path']
+        return None
 
     def adt(self, path):
         a = self.adts.get(path)
@@ -345,9 +366,11 @@ class Leaf:
 
 
 class Engine:
-    def __init__(self, prog, opaque=(), max_steps=2_000_000, max_depth=12, use_ext=True):
+    DEFAULT_USE_EXT = True   # inline monomorphised library MIR in preference to the hand-written callee models
+
+    def __init__(self, prog, opaque=(), max_steps=2_000_000, max_depth=12, use_ext=None):
         self.prog = prog
-        self.use_ext = use_ext
+        self.use_ext = Engine.DEFAULT_USE_EXT if use_ext is None else use_ext
         self.opaque = set(opaque)
         self.max_steps = max_steps
         self.max_depth = max_depth
@@ -449,6 +472,10 @@ class Engine:
             return ('adt', v[1], v[2], tuple(self.deep(x, st, seen) for x in v[3]))
         if k == 'arr':
             return ('arr', tuple(self.deep(x, st, seen) for x in v[1]))
+        if k == 'dyn':
+            return ('dyn', self.deep(v[1], st, seen), v[2])
+        if k == 'fn':
+            return ('fn', v[1].get('path_inst') or v[1].get('path'))
         if k == 'se':
             s = self.simp(v, st)
             if s[0] == 'adt':
@@ -526,6 +553,8 @@ class Engine:
             k = e['k']
             if k == 'deref':
                 v = self.get_path(st.store.get(cell), path, st)
+                if v is not None and v[0] == 'dyn':
+                    v = v[1]
                 if v is None or v[0] != 'ref':
                     raise Undecided('deref of non-reference %s' % (term_str(v),))
                 cell, path = v[1], v[2]
@@ -572,32 +601,64 @@ class Engine:
         if 'promoted' in o:
             return self.eval_promoted(o['promoted'], st, fr)
         if 'val' in o:
-            return self.structured_const(o['val'])
+            return self.structured_const(o['val'], st)
         if 'zst' in o:
             if ty['k'] == 'tuple':
                 return ('adt', '(tuple)', 0, ())
             return ('adt', ty['path'], 0, ())
         if 'fn' in o:
-            return ('fn', o['fn'])
+            return self.fn_value(o['fn'])
         return ('op', 'const:' + o.get('other', '?')[:60], ty)
 
-    def structured_const(self, j):
+    def static_cell(self, path, st):
+        cell = ('S', path)
+        if cell not in st.store:
+            sx = self.prog.statics.get(path)
+            if sx is None or 'val' not in sx:
+                raise Undecided('static %s has no decodable initialiser' % path)
+            if sx.get('mutable') or not sx.get('freeze', True):
+                raise Undecided('read of mutable / interior-mutable static %s' % path)
+            st.store[cell] = None
+            st.store[cell] = self.structured_const(sx['val'], st)
+        return cell
+
+    def structured_const(self, j, st):
         ty = j['ty']
+        if 'ref' in j:
+            key = ('K', id(j))
+            if key not in st.store:
+                st.store[key] = None
+                st.store[key] = self.structured_const(j['ref'], st)
+            return ('ref', key, ())
+        if 'static_ref' in j:
+            if j.get('offset'):
+                raise Undecided('pointer into the middle of a static')
+            return ('ref', self.static_cell(j['static_ref'], st), ())
+        if 'fnptr' in j:
+            return self.fn_value(j['fnptr'])
         if 'int' in j:
             tk = self.prog.tk(ty)
             if tk is None:
                 raise Undecided('constant scalar of unknown type')
             return C(wrap(j['int'], tk), tk)
         if 'elems' in j:
-            elems = tuple(self.structured_const(x) for x in j['elems'])
+            elems = tuple(self.structured_const(x, st) for x in j['elems'])
             if ty['k'] == 'array':
                 return ('arr', elems)
             return ('adt', '(tuple)', 0, elems)
         if 'fields' in j:
             if self.prog.tk(ty) is not None:
                 return C(j['variant'], 'E:' + j['path'])
-            return ('adt', j['path'], j['variant'], tuple(self.structured_const(x) for x in j['fields']))
+            return ('adt', j['path'], j['variant'], tuple(self.structured_const(x, st) for x in j['fields']))
         raise Undecided('structured constant')
+
+    def fn_value(self, fnref):
+        """Function pointer / fn item as a first-class value.  A pointer to a non-capturing closure arrives as
+        `<closure as FnOnce>::call_once`; it is normalised to the closure body."""
+        if fnref.get('trait') in self.FN_TRAITS and fnref.get('args') and fnref['args'][0].get('k') == 'closure':
+            cp = fnref['args'][0]['path']
+            return ('fn', {'path': cp, 'path_inst': cp, 'closure_fnptr': True, 'resolved': None, 'trait': None})
+        return ('fn', fnref)
 
     def eval_promoted(self, idx, st, fr):
         body = fr.fn['promoted'][idx]
@@ -630,7 +691,13 @@ class Engine:
             return self.load(o['pl'], st, fr)
         if k == 'const':
             return self.const_val(o, st, fr)
-        raise Undecided('operand ' + k)
+        if k == 'other' and o.get('s') in ('UbChecks', 'ContractChecks', 'OverflowChecks'):
+            # RuntimeChecks operands: library-internal UB / contract precondition checks are not analysed
+            # (safe callers cannot violate them); overflow checks follow the build flavour
+            if o['s'] == 'OverflowChecks':
+                return C(1 if self.prog.facts.get('overflow_checks') else 0, 'bool')
+            return C(0, 'bool')
+        raise Undecided('operand ' + (o.get('s') or k))
 
     # ---------------------------------------------------------------- rvalues
     BIN = {'Add': 'Add', 'Sub': 'Sub', 'Mul': 'Mul', 'BitAnd': 'BitAnd', 'BitOr': 'BitOr', 'BitXor': 'BitXor',
@@ -644,6 +711,11 @@ class Engine:
         if k == 'use':
             return self.operand(rv['op'], st, fr)
         if k == 'ref':
+            pj = rv['pl']['p']
+            if len(pj) == 1 and pj[0]['k'] == 'deref':
+                base = st.store.get(('L', fr.uid, rv['pl']['l']))
+                if base is not None and base[0] == 'dyn':
+                    return base        # reborrow of a trait object keeps its vtable
             cell, path = self.resolve_place(rv['pl'], st, fr)
             if rv['mut'] and cell[0] == 'H':
                 st.events.append(('mutborrow', cell, path, sp, fr.fn['path']))
@@ -667,6 +739,10 @@ class Engine:
             return T(o, (a, b), 'bool' if o in self.CMP else tka)
         if k == 'un':
             a = self.simp(self.operand(rv['a'], st, fr), st)
+            if rv['op'] == 'PtrMetadata' and a is not None and a[0] == 'ref':
+                tgt = self.get_path(st.store.get(a[1]), a[2], st)
+                if tgt is not None and tgt[0] == 'arr':
+                    return C(len(tgt[1]), 'usize')
             if rv['op'] not in ('Not', 'Neg') or not is_scalar(a):
                 raise Undecided('unary operator ' + rv['op'], sp)
             return T(rv['op'], (a,), tk_of(a))
@@ -680,8 +756,28 @@ class Engine:
             if rv['kind'] == 'Transmute' and is_scalar(a) and tk in INT_TYPES and tk_of(a) in INT_TYPES \
                     and INT_TYPES[tk][0] == INT_TYPES[tk_of(a)][0] and tk != 'bool' and tk_of(a) != 'bool':
                 return T('Cast', (a,), tk)
-            if rv['kind'].startswith('PointerCoercion') or rv['kind'] in ('PtrToPtr',):
-                raise Undecided('pointer cast ' + rv['kind'], sp)
+            kind = rv['kind']
+            a0 = self.operand(rv['op'], st, fr)
+            if kind.startswith('PointerCoercion(ReifyFnPointer') or kind.startswith('PointerCoercion(UnsafeFnPointer'):
+                if a0 is not None and a0[0] == 'fn':
+                    return a0
+            if kind.startswith('PointerCoercion(ClosureFnPointer'):
+                if a0 is not None and a0[0] == 'adt' and a0[1].startswith('(closure)') and not a0[3]:
+                    cp = a0[1][len('(closure)'):]
+                    return ('fn', {'path': cp, 'path_inst': cp, 'closure_fnptr': True, 'resolved': None, 'trait': None})
+            if kind.startswith('PointerCoercion(Unsize'):
+                if a0 is not None and a0[0] == 'dyn' and rv['ty'].get('k') == 'ref' and rv['ty']['to'].get('k') == 'dyn':
+                    return a0              # &dyn Tr -> &dyn Tr (lifetime / auto-trait adjustment)
+                if a0 is not None and a0[0] == 'ref':
+                    dst = rv['ty']
+                    if dst.get('k') == 'ref' and dst['to'].get('k') == 'slice':
+                        return a0          # &[T; N] -> &[T]: same place, the length lives in the array value
+                    if dst.get('k') == 'ref' and dst['to'].get('k') == 'dyn':
+                        src = self.operand_ty(rv['op'], fr)
+                        if src is not None and src.get('k') == 'ref':
+                            return ('dyn', a0, src['to'])
+            if kind.startswith('PointerCoercion') or kind in ('PtrToPtr',):
+                raise Undecided('pointer cast ' + kind, sp)
             raise Undecided('cast ' + rv['kind'], sp)
         if k == 'discr':
             v = self.load(rv['pl'], st, fr)
@@ -967,12 +1063,138 @@ class Engine:
             return [base]
         return ss
 
+    FN_TRAITS = ('core::ops::FnOnce', 'core::ops::FnMut', 'core::ops::Fn')
+
     def do_call(self, t, st, fr, work, leaves):
+        fop = t['fn']
+        if fop.get('k') == 'const' and 'fn' in fop:
+            fn = fop['fn']
+        else:
+            fv = self.simp(self.operand(fop, st, fr), st)
+            if fv is None or fv[0] != 'fn':
+                raise Undecided('indirect call through %s' % term_str(fv), t['sp'])
+            fn = fv[1]
+        vals = [self.operand(a, st, fr) for a in t['args']]
+        argtys = [self.operand_ty(a, fr) for a in t['args']]
+        return self.invoke(fn, vals, argtys, t, st, fr, work, leaves, 0)
+
+    def push_frame(self, callee, vals, t, st, fr):
+        sp = t['sp']
+        if fr.depth + 1 > self.max_depth:
+            raise Undecided('call depth bound exceeded (recursion?)', sp)
+        if t['t'] is None:
+            raise Undecided('diverging call to a function with a body', sp)
+        if len(vals) != callee['body']['arg_count']:
+            raise Undecided('argument count mismatch calling %s' % callee['path'], sp)
+        nf = Frame()
+        nf.uid = st.next_uid; st.next_uid += 1
+        nf.fn = callee; nf.body = callee['body']; nf.bb = 0; nf.pc = 0
+        nf.dest = t['dest']; nf.ret_to = t['t']; nf.depth = fr.depth + 1
+        for i, v in enumerate(vals):
+            st.store[('L', nf.uid, i + 1)] = v
+        st.frames.append(nf)
+        self.stats['inlined_calls'] += 1
+        return 'cont'
+
+    def call_closure(self, cpath, env, args, t, st, fr):
+        """Run the body of local closure `cpath` with captured environment `env` (the closure value or a
+        reference to it) on already untupled `args`."""
+        callee = self.prog.fns.get(cpath)
+        if callee is None or callee.get('kind') != 'Closure':
+            raise Undecided('call of unknown closure ' + cpath, t['sp'])
+        want_ref = callee['body']['locals'][1]['ty'].get('k') == 'ref'
+        # peel references down to the closure value, then re-wrap as the body expects
+        v = env
+        hops = 0
+        while v is not None and v[0] == 'ref' and hops < 4:
+            inner = self.get_path(st.store.get(v[1]), v[2], st)
+            if inner is not None and inner[0] == 'ref':
+                v = inner; hops += 1
+            else:
+                break
+        if want_ref:
+            if v is None or v[0] != 'ref':
+                cell = ('T', st.next_uid); st.next_uid += 1
+                st.store[cell] = v
+                v = ('ref', cell, ())
+        else:
+            if v is not None and v[0] == 'ref':
+                v = self.get_path(st.store.get(v[1]), v[2], st)
+        return self.push_frame(callee, [v] + list(args), t, st, fr)
+
+    def invoke(self, fn, vals, argtys, t, st, fr, work, leaves, depth):
         prog = self.prog
-        fn = self.callee_of(t)
+        sp = t['sp']
+        if depth > 6:
+            raise Undecided('call indirection too deep', sp)
         res = fn.get('resolved')
         path = res['path'] if res else None
-        sp = t['sp']
+
+        def ret(v):
+            self.storev(t['dest'], v, st, fr, sp)
+            if t['dest']['l'] == 0:
+                st.ret_span = (fr.fn['path'], sp)
+            if t['t'] is None:
+                raise Undecided('diverging call returned', sp)
+            fr.goto(t['t'])
+            return 'cont'
+
+        # ---- constructor functions of tuple structs / variants used as values (`.map(Some)`)
+        if fn.get('ctor'):
+            c = fn['ctor']
+            if prog.is_fieldless_enum(c['adt']) if c['adt'] in prog.adts and prog.adts[c['adt']]['kind'] == 'enum' else False:
+                return ret(C(c['variant'], 'E:' + c['adt']))
+            return ret(('adt', c['adt'], c['variant'], tuple(vals)))
+        # ---- pointer to a non-capturing closure
+        if fn.get('closure_fnptr'):
+            return self.call_closure(fn['path'], ('adt', '(closure)' + fn['path'], 0, ()), vals, t, st, fr)
+        # ---- Fn / FnMut / FnOnce ::call*  : dispatch on the callee type or value
+        if fn.get('trait') in self.FN_TRAITS and fn.get('method') in ('call', 'call_mut', 'call_once') and len(vals) == 2:
+            selfty = fn['args'][0] if fn.get('args') else None
+            tup = vals[1]
+            if tup is None or tup[0] != 'adt' or tup[1] != '(tuple)':
+                raise Undecided('Fn-trait call without an argument tuple', sp)
+            args = list(tup[3])
+            cv = vals[0]
+            while selfty is not None and selfty.get('k') == 'ref':
+                selfty = selfty['to']
+            # find the callable value behind any references
+            v = cv
+            for _ in range(4):
+                if v is not None and v[0] == 'ref':
+                    v = self.get_path(st.store.get(v[1]), v[2], st)
+                else:
+                    break
+            if selfty is not None and selfty.get('k') == 'fndef' and 'fn' in selfty:
+                return self.invoke(selfty['fn'], args, [None] * len(args), t, st, fr, work, leaves, depth + 1)
+            if v is not None and v[0] == 'fn':
+                return self.invoke(v[1], args, [None] * len(args), t, st, fr, work, leaves, depth + 1)
+            if v is not None and v[0] == 'adt' and v[1].startswith('(closure)'):
+                return self.call_closure(v[1][len('(closure)'):], cv, args, t, st, fr)
+            if selfty is not None and selfty.get('k') == 'closure':
+                return self.call_closure(selfty['path'], cv, args, t, st, fr)
+            raise Undecided('call of an unknown callable %s' % term_str(v), sp)
+        # ---- dynamic dispatch: resolve through the concrete type recorded at the unsizing coercion
+        if res is not None and res.get('kind') == 'virtual' and vals and vals[0] is not None and vals[0][0] == 'dyn':
+            impl_fn = prog.find_impl_method(fn.get('trait'), vals[0][2], fn.get('method'))
+            if impl_fn is not None:
+                nfn = {'path': impl_fn, 'path_inst': impl_fn, 'resolved': {'path': impl_fn, 'path_inst': impl_fn, 'local': True, 'kind': 'item'},
+                       'trait': None}
+                return self.invoke(nfn, [vals[0][1]] + vals[1:], argtys, t, st, fr, work, leaves, depth + 1)
+        # ---- a trait-method call the compiler could not resolve in generic code, on a receiver whose
+        #      concrete type is known to the interpreter: resolve through the crate's impl index
+        if res is None and fn.get('trait') is not None and fn.get('trait') not in self.FN_TRAITS and vals:
+            v = vals[0]
+            hops = 0
+            while v is not None and v[0] in ('ref', 'dyn') and hops < 4:
+                v = v[1] if v[0] == 'dyn' else self.get_path(st.store.get(v[1]), v[2], st)
+                hops += 1
+            if v is not None and v[0] == 'adt' and v[1] in prog.adts and prog.adts[v[1]].get('local'):
+                impl_fn = prog.find_impl_method(fn.get('trait'), {'k': 'adt', 'path': v[1], 'local': True, 'args': []}, fn.get('method'))
+                if impl_fn is not None and impl_fn in prog.fns:
+                    nfn = {'path': impl_fn, 'path_inst': impl_fn, 'trait': None,
+                           'resolved': {'path': impl_fn, 'path_inst': impl_fn, 'local': True, 'kind': 'item'}}
+                    return self.invoke(nfn, vals, argtys, t, st, fr, work, leaves, depth + 1)
         target = None
         if path is not None and path in prog.fns and res['local']:
             target = path
@@ -981,45 +1203,26 @@ class Engine:
         if target is not None and target not in self.opaque:
             callee = prog.fns[target]
         elif target is None and res is not None and self.use_ext and res.get('kind') == 'item':
-            ef = prog.ext_fns.get(res['path_inst'])
-            if ef is not None and res['path'] not in self.opaque and not self.is_panic_path(res['path']):
+            ef = prog.ext_fns.get(res['path_inst']) or prog.ext_generic.get(res['path'])
+            if ef is not None and res['path'] not in self.opaque and not self.is_panic_path(res['path']) \
+                    and not self.prefer_model(res['path']):
                 callee = ef
         if callee is not None:
-            if fr.depth + 1 > self.max_depth:
-                raise Undecided('call depth bound exceeded (recursion?)', sp)
-            if t['t'] is None:
-                raise Undecided('diverging call to a function with a body', sp)
-            vals = [self.operand(a, st, fr) for a in t['args']]
-            nargs = callee['body']['arg_count']
-            if callee.get('kind') == 'Closure' and len(vals) == 2 and nargs != 2:
-                tup = vals[1]
-                if tup is None or tup[0] != 'adt' or tup[1] != '(tuple)':
-                    raise Undecided('closure call without an argument tuple', sp)
-                vals = [vals[0]] + list(tup[3])
-            elif callee.get('kind') == 'Closure' and len(vals) == 2 and nargs == 2:
-                tup = vals[1]
-                if tup is not None and tup[0] == 'adt' and tup[1] == '(tuple)' and len(tup[3]) == 1:
-                    vals = [vals[0], tup[3][0]]
-            if len(vals) != nargs:
-                raise Undecided('argument count mismatch calling %s' % callee['path'], sp)
-            nf = Frame()
-            nf.uid = st.next_uid; st.next_uid += 1
-            nf.fn = callee; nf.body = callee['body']; nf.bb = 0; nf.pc = 0
-            nf.dest = t['dest']; nf.ret_to = t['t']; nf.depth = fr.depth + 1
-            for i, v in enumerate(vals):
-                st.store[('L', nf.uid, i + 1)] = v
-            st.frames.append(nf)
-            self.stats['inlined_calls'] += 1
-            return 'cont'
+            if callee.get('kind') == 'Closure':
+                # direct call of a closure body: (env, (args,)) -> (env, args...)
+                if len(vals) == 2 and vals[1] is not None and vals[1][0] == 'adt' and vals[1][1] == '(tuple)' \
+                        and callee['body']['arg_count'] == 1 + len(vals[1][3]):
+                    return self.call_closure(target, vals[0], list(vals[1][3]), t, st, fr)
+            return self.push_frame(callee, vals, t, st, fr)
         # ---- modelled library callees
         if target is None and path is not None:
-            m = self.model_call(fn, res, t, st, fr, work, leaves)
+            m = self.model_call(fn, res, vals, t, st, fr, work, leaves)
             if m is not None:
                 return m
-        # ---- opaque call (generic trait method, or a local callee the rule keeps opaque)
-        generic_trait_call = (res is None or res.get('kind') == 'virtual') and fn.get('trait') is not None
+        # ---- opaque call (generic trait method, dyn call, or a local callee the rule keeps opaque)
+        generic_trait_call = (res is None or res.get('kind') == 'virtual') and fn.get('trait') is not None \
+            and fn.get('trait') not in self.FN_TRAITS
         if generic_trait_call or (target is not None and target in self.opaque):
-            vals = [self.operand(a, st, fr) for a in t['args']]
             rec = {
                 'callee': fn['path'], 'callee_inst': fn['path_inst'], 'resolved': path,
                 'args': [self.deep(v, st) for v in vals], 'sp': sp, 'in': fr.fn['path'],
@@ -1030,10 +1233,9 @@ class Engine:
             if t['t'] is None:
                 raise Undecided('opaque diverging call', sp)
             # havoc everything reachable through &mut arguments
-            argtys = None
             for i, v in enumerate(vals):
                 if v is not None and v[0] == 'ref':
-                    aty = self.operand_ty(t['args'][i], fr)
+                    aty = argtys[i] if i < len(argtys) else None
                     if aty is not None and aty['k'] == 'ref' and aty['mut']:
                         cell, pth = v[1], v[2]
                         new = self.mk_sym(aty['to'], self.fresh('havoc'), st)
@@ -1051,6 +1253,11 @@ class Engine:
             fr.goto(t['t'])
             return 'cont'
         raise Undecided('call to un-modelled function %s' % (fn['path_inst'],), sp)
+
+    @staticmethod
+    def prefer_model(path):
+        """Library functions whose real MIR works on raw pointers: the semantic model is used instead."""
+        return False
 
     @staticmethod
     def is_panic_path(path):
@@ -1077,10 +1284,9 @@ class Engine:
         return o.get('ty')
 
     # ---- callee models (each with its justification) ----------------------
-    def model_call(self, fn, res, t, st, fr, work, leaves):
+    def model_call(self, fn, res, vals, t, st, fr, work, leaves):
         path = res['path']
         sp = t['sp']
-        args = t['args']
 
         def ret(v):
             self.storev(t['dest'], v, st, fr, sp)
@@ -1091,8 +1297,7 @@ class Engine:
 
         def concrete_enum(i):
             """argument i as an ADT value with decided variant; forks on the tag if needed."""
-            v = self.operand(args[i], st, fr)
-            v = self.simp(v, st)
+            v = self.simp(vals[i], st)
             if v is not None and v[0] == 'se':
                 parts = self.split(st, v[2], sp)
                 for _, s2 in parts:
@@ -1100,7 +1305,7 @@ class Engine:
                         work.append(s2)   # re-executes this terminator with the tag decided
                 if not any(s2 is st for _, s2 in parts):
                     return 'stop'
-                v = self.simp(self.operand(args[i], st, fr), st)
+                v = self.simp(vals[i], st)
             if v is None or v[0] != 'adt':
                 raise Undecided('model %s: argument is not an enum value' % path, sp)
             return v
@@ -1143,7 +1348,7 @@ class Engine:
                 path.startswith('core::convert::num::<impl core::convert::From<') or \
                 path.startswith('core::char::convert::<impl core::convert::From<u8> for char>'):
             a = res['args']
-            v = self.simp(self.operand(args[0], st, fr), st)
+            v = self.simp(vals[0], st)
             if path == '<T as core::convert::From<T>>::from':
                 return ret(v)
             dty = self.place_ty(t['dest'], fr)
@@ -1164,17 +1369,17 @@ class Engine:
         # integer bit-counting intrinsics wrappers
         for nm, op in (('count_ones', 'CountOnes'),):
             if path.startswith('core::num::<impl ') and path.endswith('>::' + nm):
-                v = self.simp(self.operand(args[0], st, fr), st)
+                v = self.simp(vals[0], st)
                 if not is_scalar(v):
                     raise Undecided(nm + ' on non-scalar', sp)
                 return ret(T(op, (v,), 'u32'))
         if path == 'core::intrinsics::ctpop':
-            v = self.simp(self.operand(args[0], st, fr), st)
+            v = self.simp(vals[0], st)
             if not is_scalar(v):
                 raise Undecided('ctpop on non-scalar', sp)
             return ret(T('CountOnes', (v,), 'u32'))
         if path in ('core::intrinsics::likely', 'core::intrinsics::unlikely', 'core::hint::black_box', 'core::convert::identity'):
-            return ret(self.operand(args[0], st, fr))
+            return ret(vals[0])
         if path in ('core::intrinsics::cold_path', 'core::hint::assert_unchecked', 'core::intrinsics::assume'):
             return ret(('adt', '(tuple)', 0, ()))
         # panic entry points diverge
